@@ -116,11 +116,20 @@ func c13Specs(tier string) []*Spec {
 	}
 	k3 := bs("a", "ab", "b")
 	long := bytes.Repeat([]byte("k"), 200)
+	// lengths at the boundaries of the length-prefix varint (1 byte up to 127, 2 bytes from 128, 3 bytes from 16384)
+	bl := func(n int, c byte) []byte { return bytes.Repeat([]byte{c}, n) }
+	addB := func(name string, depth, wt int) {
+		a := Alpha{Writes: true, Save: true, Reopen: stdReopen[:1]}
+		keys := [][]byte{bl(127, 'a'), bl(128, 'b'), []byte("c")}
+		specs = append(specs, &Spec{Weight: wt, ID: "C13", Name: name, Cfg: defaultCfg, Keys: keys, Vals: [][]byte{bl(127, 'v'), bl(128, 'w'), bl(16384, 'x')}, MaxDepth: depth, MaxMaint: 1,
+			Alphabet: a.Ops, Oracles: []Oracle{oracleFormat(), oracleEncodedDB(keys), oracleFresh(oracleReads(keys))}})
+	}
 	if tier == "quick" {
 		add("default/3keys/d5", defaultCfg, k3, 5, 2, 10)
 		add("nofast/3keys/d4", Cfg{Fast: false}, k3, 4, 2, 2)
 		add("longkey/d4", defaultCfg, [][]byte{[]byte("a"), long, {0xff, 0x00}}, 4, 1, 2)
 		add("iv7/d4", Cfg{Fast: true, IVSet: true, IV: 7}, k3, 4, 1, 2)
+		addB("boundary-lengths/d3", 3, 3)
 		return specs
 	}
 	add("default/3keys/d7", defaultCfg, k3, 7, 2, 30)
@@ -128,6 +137,7 @@ func c13Specs(tier string) []*Spec {
 	add("longkey/d5", defaultCfg, [][]byte{[]byte("a"), long, {0xff, 0x00}}, 5, 2, 4)
 	add("iv7/d5", Cfg{Fast: true, IVSet: true, IV: 7}, k3, 5, 2, 4)
 	add("5keys/d6", defaultCfg, bs("a", "b", "c", "d", "e"), 6, 0, 8)
+	addB("boundary-lengths/d4", 4, 6)
 	return specs
 }
 
